@@ -5,6 +5,7 @@ pub mod c03;
 pub mod c04;
 pub mod c05;
 pub mod c09;
+pub mod c10;
 pub mod c11;
 pub mod c12;
 pub mod c13;
@@ -22,6 +23,7 @@ pub fn run(id: &str, tier: &str) -> Option<i32> {
         "C04" => { let r = Report::new(id, tier, "model_checking"); c04::check(&r); r }
         "C05" => { let r = Report::new(id, tier, "model_checking"); c05::check(&r); r }
         "C09" => { let r = Report::new(id, tier, "model_checking"); c09::check(&r); r }
+        "C10" => { let r = Report::new(id, tier, "model_checking"); c10::check(&r); r }
         "C11" => { let r = Report::new(id, tier, "model_checking"); c11::check(&r); r }
         "C12" => { let r = Report::new(id, tier, "model_checking"); c12::check(&r); r }
         "C13" => { let r = Report::new(id, tier, "model_checking"); c13::check(&r); r }
@@ -39,6 +41,7 @@ pub fn replay(id: &str, path: &str) -> Option<i32> {
         "C04" => Some(c04::replay(path)),
         "C05" => Some(c05::replay(path)),
         "C09" => Some(c09::replay(path)),
+        "C10" => Some(c10::replay(path)),
         "C11" => Some(c11::replay(path)),
         "C12" => Some(c12::replay(path)),
         "C13" => Some(c13::replay(path)),
